@@ -13,14 +13,14 @@ def repo_hook_commits():
 CLAIMED = {
     "C16": dict(
         engine="srvsim",
-        technique="deterministic simulation of the real service in one process: seeded schedules over client requests, gated database calls, parked blocking tasks and a paused clock, with database faults and deadline jumps; answers/graphs judged against truth-table semantics, running-flag and bounded-liveness oracles over the recorded history",
+        technique="deterministic simulation of the real service in one process: seeded schedules over client requests, gated database calls, parked blocking tasks and a paused clock, with database faults, client disconnects (request dropped at a database call), server restarts and deadline jumps; answers/graphs judged against truth-table semantics, running-flag and bounded-liveness oracles over the recorded history",
         text="The real handlers, middleware and solver run in-process against a gated in-memory MongoDB stub; the simulator decides which request is issued next, which parked database call completes next (Ok / fails before / executes but ack lost), when each parse/solve closure finishes, when the clock jumps past the 120 s deadline and when the server process crashes and restarts with only the store surviving. Oracles on every GET: models per strategy equal the definitional answers for the shown code (set-equal, duplicate-free), every graph is a faithful picture (node set = reachable set, one lo/hi edge per inner node, evaluation equals the acceptance condition under every assignment extending the shown model), unparseable code shows an error, an ended task is not listed as running; at quiescence every acknowledged solve has its result. One open known finding (results lost when the owner's account name changes while the task is in flight). Exploration-level evidence.",
         design_ref="DESIGN.md 5.7",
         note="Trusted: MongoDB stub, refsem, the graph checker, the seam hook (two added lines per closure). Real: everything under /repo/server/src except main()'s socket binding, the whole library.",
     ),
     "C17": dict(
         engine="srvsim",
-        technique="deterministic simulation of the real service with 2-3 simulated clients: seeded interleavings at every database await point (handlers parked between any two of their calls), database faults, clock jumps, tiny temporary-name space; provenance-based foreign-write oracle inside the store, marker-based foreign-data oracle on responses, credential and own-view oracles",
+        technique="deterministic simulation of the real service with 2-3 simulated clients (one world in eight: two sessions of one user): seeded interleavings at every database await point (handlers parked between any two of their calls), database faults, client disconnects, server restarts, clock jumps, tiny temporary-name space; credential model (password most recently set) next to the stored-credential checks; provenance-based foreign-write oracle inside the store, marker-based foreign-data oracle on responses, credential and own-view oracles",
         text="2-3 clients with cookie jars run generated scripts over all ten endpoints; every submitted code carries its client's marker and every stored document the provenance of the request that created it. The simulator interleaves the clients' handlers between any two database calls of one handler, fails database calls, jumps the clock and restarts the server process (fresh session key, only the store survives). Verdicts: no response contains another client's marker; no request or background task modifies or deletes a document another client created (checked at the call); own view equals the client's acknowledged data (disjoint-name configuration); stored credentials are salted argon2 strings, never plaintext, never equal for two accounts; a login is acknowledged iff the credential found was produced from the submitted password; requests without a valid session get no problem data; every client re-executed alone under the projection of the same schedule sees the identical history (O5, disjoint configuration). Two configurations (disjoint / contended account names) run separately. Exploration-level evidence; two open known findings (rename window; running flag of a former holder of an account name).",
         design_ref="DESIGN.md 5.6",
         note="Trusted: MongoDB stub incl. provenance bookkeeping, names stub, harness model.",
@@ -40,8 +40,8 @@ CLAIMED = {
         note="Trusted: harness, table walker, strace's syscall tampering. CLI part (clisim): the real adf-bdd binary under strace fault injection, path-filtered to the export file: k-th write fails (ENOSPC/EIO/EINTR) or the process is killed at it, statx/openat fail; verdicts: an existing export target is never modified, an export that exits 0 imports to the same answers, fault-free round trip prints the same output.",
     ),
     "C06": dict(
-        engine="libsim",
-        technique="deterministic simulation: canonicity invariant evaluated after every step of seeded histories with injected restarts / bridge imports and on streaming mirrors after every scheduled poll",
+        engine="libsim+clisim",
+        technique="deterministic simulation: canonicity invariant evaluated after every step of seeded histories with injected restarts / bridge imports and on streaming mirrors after every scheduled poll; plus fault-free executions of the real CLI (export + semantics in one run, re-import, second generation) compared with a direct run",
         text="Scoped claim: the node table stays reduced, ordered, duplicate-free with constants first, and distinct handles denote distinct functions (hence top/bottom iff valid/unsatisfiable), after every step of histories containing JSON re-imports, node-list rebuilds and bridge imports, for everything built afterwards, and on streaming mirrors after every poll under seeded schedules (incl. re-creating every entry on the drained mirror: existing handle, no growth). Operand functions are sampled. A third part (store) judges structural canonicity and sampled function values through tens of thousands of operations on one store over up to 16 variables, incl. variable indices 65 536 and 2^32 apart. Exploration-level evidence.",
         design_ref="DESIGN.md 5.5, 13.2",
         note="Trusted: table walker and structural checker. The purely sequential part of canonicity over plain operand functions is a pure property and not claimed.",
@@ -109,7 +109,7 @@ def main():
         "engines": [
             {"name": "srvsim", "path": "/verif/sim/srvsim", "serves_properties": sorted(p for p, c in CLAIMED.items() if "srvsim" in c["engine"]),
              "kind_free_text": "deterministic simulation of the web service: real handlers/middleware/solver in-process on a paused current-thread runtime, gated in-memory MongoDB stub, parked blocking closures, seeded step scheduler with fault injection, shrinking + replay files"},
-            {"name": "clisim", "path": "/verif/sim/clisim", "serves_properties": ["C14"],
+            {"name": "clisim", "path": "/verif/sim/clisim", "serves_properties": ["C06", "C14"],
              "kind_free_text": "the real adf-bdd binary in a private directory under strace syscall fault injection at exact, replayable positions (single-threaded process => deterministic fault points); seeded case generation, fault-position enumeration in the thorough tier"},
             {"name": "heusim", "path": "/verif/sim/clisim", "serves_properties": ["C05"],
              "kind_free_text": "differential execution of the real adf-bdd binary (nogood options with every --heu value against the lazy semantics); seeded case generation, no schedule or fault - watches a repaired CLI defect"},
